@@ -43,6 +43,7 @@ var TrustedDoc = map[string]string{
 	"slices.Delete":         "requires 0 <= i <= j <= len; result = s[:i] ++ s[j:]",
  	"strings.Split(s, \"\")": "every element is non-empty; an element starting with a byte < 0x80 has length 1",
  	"(*regexp.Regexp).FindStringSubmatch": "returns nil or 1+NumSubexp strings (NumSubexp of package-level regexps is read from the real compiled value)",
+ 	"bufio.Scanner": "the reader holds a sequence of lines; Scan() returns true and advances iff a line is left and it is shorter than the maximum token size (65536 unless Buffer() raised it to at least its max argument); Text() is the line just passed; no line is 2^62 bytes long",
 	"strings.Join":          "uninterpreted deterministic function of (elements, length, separator)",
 	"fmt.Errorf":            "returns a non-nil error",
 	"errors.New":            "returns a non-nil error",
@@ -148,6 +149,44 @@ func (ex *Exec) libCall(st *State, fn *ssa.Function, args []Val, pos string) []O
 		ln := ex.Ctx.Fresh("submatch_len", "Int")
 		st.Assume(smt.And(smt.Ge(n, "0"), smt.Or(smt.Eq(ln, "0"), smt.Eq(ln, smt.Add(n, "1")))))
 		return ret1(st, Slice{Arr: arr, Len: ln, Elem: types.Typ[types.String], B: ex.newBacking()})
+	case "bufio.NewScanner":
+		ex.trust("bufio.Scanner")
+		rd, ok := ex.refOf(st, args[0])
+		if !ok {
+			outside("bufio.NewScanner on a reader that is not a symbolic reference")
+		}
+		scr := ex.Ctx.Fresh("scanner", "Ref")
+		st.Assume(smt.Neq(scr, NilRef))
+		ex.mu.Lock()
+		ex.scanReader[scr] = rd
+		ex.GhostSort["scanpos:"+rd] = "Int"
+		ex.GhostSort["scanmax:"+rd] = "Int"
+		ex.mu.Unlock()
+		fns := ex.scanFns()
+		st.Ghost["scanpos:"+rd] = "0"
+		st.Ghost["scanmax:"+rd] = "65536"
+		st.Assume(smt.Ge(smt.App(fns[0], rd), "0"))
+		return ret1(st, Ptr{Ref: scr, Root: fn.Signature.Results().At(0).Type().(*types.Pointer).Elem()})
+	case "(*bufio.Scanner).Buffer":
+		ex.trust("bufio.Scanner")
+		rd := ex.readerOf(args[0])
+		m := ex.Ctx.Fresh("scanmax", "Int")
+		st.Assume(smt.Ge(m, args[2].(Int).T)) // the larger of max and cap(buf)
+		st.Ghost["scanmax:"+rd] = m
+		return []Outcome{{St: st}}
+	case "(*bufio.Scanner).Scan":
+		ex.trust("bufio.Scanner")
+		rd := ex.readerOf(args[0])
+		fns := ex.scanFns()
+		p := st.Ghost["scanpos:"+rd]
+		ll := smt.App("slen", smt.App(fns[1], rd, p))
+		ok := smt.And(smt.Lt(p, smt.App(fns[0], rd)), smt.Lt(ll, st.Ghost["scanmax:"+rd]))
+		st.Ghost["scanpos:"+rd] = smt.Ite(ok, smt.Add(p, "1"), p)
+		return ret1(st, Bool{ok})
+	case "(*bufio.Scanner).Text":
+		ex.trust("bufio.Scanner")
+		rd := ex.readerOf(args[0])
+		return ret1(st, Str{smt.App(ex.scanFns()[1], rd, smt.Sub(st.Ghost["scanpos:"+rd], "1"))})
 	case "strings.Join":
 		ex.trust(name)
 		sl := args[0].(Slice)
@@ -167,10 +206,18 @@ func (ex *Exec) libCall(st *State, fn *ssa.Function, args []Val, pos string) []O
 	// generic: scalar arguments only -> deterministic uninterpreted function
 	var terms, sorts []string
 	for _, a := range args {
-		switch a.(type) {
+		switch av := a.(type) {
 		case Int, Bool, Str:
 			terms = append(terms, term(a))
 			sorts = append(sorts, flatSorts(a)...)
+		case Ptr:
+			// immutable library objects (compiled regexps) identified by their reference
+			if strings.HasPrefix(name, "(*regexp.Regexp).") && av.Obj == nil && av.Elem == nil && av.Glob == "" && len(av.Path) == 0 {
+				terms = append(terms, av.Ref)
+				sorts = append(sorts, "Ref")
+				continue
+			}
+			outside("call to %s with %T argument has no trusted contract (at %s)", name, a, pos)
 		default:
 			outside("call to %s with %T argument has no trusted contract (at %s)", name, a, pos)
 		}
@@ -215,6 +262,32 @@ func (ex *Exec) libCall(st *State, fn *ssa.Function, args []Val, pos string) []O
 	}
 	_ = strings.Join
 	return []Outcome{{St: st, Ret: rets}}
+}
+
+// scanFns: ghost description of the input of a bufio.Scanner: number of lines and the
+// lines of the reader. Trusted: no line is 2^62 bytes long.
+func (ex *Exec) scanFns() [2]string {
+	if !ex.Ctx.Has("scan_nlines") {
+		ex.Ctx.Declare("scan_nlines", []string{"Ref"}, "Int")
+		ex.Ctx.Declare("scan_line", []string{"Ref", "Int"}, "Str")
+		ex.Ctx.Define("scan_nlines", "")
+		ex.Ctx.AddAxiom("(forall ((r Ref) (k Int)) (! (< (slen (scan_line r k)) 4611686018427387904) :pattern ((scan_line r k))))")
+	}
+	return [2]string{"scan_nlines", "scan_line"}
+}
+
+func (ex *Exec) readerOf(sc Val) string {
+	p, ok := sc.(Ptr)
+	if !ok {
+		outside("scanner method on %T", sc)
+	}
+	ex.mu.Lock()
+	defer ex.mu.Unlock()
+	rd, ok := ex.scanReader[p.Ref]
+	if !ok {
+		outside("scanner that was not created by bufio.NewScanner in this function")
+	}
+	return rd
 }
 
 // strCompare: trusted contract of strings.Compare as constraints on a fresh integer.
